@@ -30,8 +30,10 @@ def one(mut):
         shutil.copytree("/repo/asl-workflow-engine", os.path.join(tmp, "asl-workflow-engine"), ignore=shutil.ignore_patterns("__pycache__", "*.pyc"))
         p = subprocess.run(["git", "apply", os.path.join(d, "patch.diff")], cwd=tmp, stdout=subprocess.PIPE, stderr=subprocess.STDOUT, text=True)
         if p.returncode:
-            res["error"] = "patch does not apply: " + p.stdout[-200:]
-            return res
+            p2 = subprocess.run("patch -p1 -F3 --no-backup-if-mismatch -s < %s" % os.path.join(d, "patch.diff"), shell=True, cwd=tmp, stdout=subprocess.PIPE, stderr=subprocess.STDOUT, text=True)
+            if p2.returncode:
+                res["error"] = "patch does not apply: " + p.stdout[-200:]
+                return res
         env = dict(os.environ, VERIF_NO_EVIDENCE="1", VERIF_REPO=tmp)
         for prop in PROPS:
             q = subprocess.run([os.path.join(VERIF, "check"), prop, "--root", tmp], cwd=VERIF, stdout=subprocess.PIPE, stderr=subprocess.STDOUT, text=True, env=env, timeout=600)
